@@ -677,6 +677,12 @@ func sortCallOn(p *Program, call *ast.CallExpr, v string) (string, bool) {
 
 // classifyFirstUse: every occurrence of v in st must be the operand of a sort call.
 func classifyFirstUse(p *Program, st ast.Stmt, v string) (string, bool) {
+	// handed back to the callers as the result: every caller must sort it first
+	if ret, ok := st.(*ast.ReturnStmt); ok && len(ret.Results) == 1 && exprStr(p.Fset, ret.Results[0]) == v {
+		if how, ok := callersSortResult(p, ret); ok {
+			return how, true
+		}
+	}
 	var hows []string
 	bad := ""
 	var visit func(n ast.Node, inSort bool)
@@ -815,4 +821,82 @@ func sortingCalleeOn(p *Program, call *ast.CallExpr, v string, depth int) (strin
 		return "", false
 	}
 	return "sorted first thing by " + fd.Name.Name + " (" + how + ")", true
+}
+
+// callersSortResult: the function containing ret is only called in the form `x := f(…)` (or
+// `x = f(…)`) and the first use of x after each such call is a sort of it.
+func callersSortResult(p *Program, ret *ast.ReturnStmt) (string, bool) {
+	var fd *ast.FuncDecl
+	for _, pk := range p.Pkgs {
+		for _, file := range pk.Syntax {
+			if file.Pos() > ret.Pos() || ret.End() > file.End() {
+				continue
+			}
+			for _, d := range file.Decls {
+				if f, ok := d.(*ast.FuncDecl); ok && f.Body != nil && f.Body.Pos() <= ret.Pos() && ret.End() <= f.Body.End() {
+					fd = f
+				}
+			}
+		}
+	}
+	if fd == nil {
+		return "", false
+	}
+	// the return must not sit in a function literal of fd
+	inLit := false
+	ast.Inspect(fd.Body, func(n ast.Node) bool {
+		if fl, ok := n.(*ast.FuncLit); ok && fl.Body.Pos() <= ret.Pos() && ret.End() <= fl.Body.End() {
+			inLit = true
+		}
+		return true
+	})
+	if inLit {
+		return "", false
+	}
+	nCalls, nGood := 0, 0
+	var hows []string
+	for _, pk := range p.Pkgs {
+		if !inModule(pk.PkgPath) {
+			continue
+		}
+		for _, file := range pk.Syntax {
+			// every call of fd …
+			ast.Inspect(file, func(n ast.Node) bool {
+				if call, ok := n.(*ast.CallExpr); ok && calleeDecl(p, call) == fd {
+					nCalls++
+				}
+				return true
+			})
+			// … is the right-hand side of an assignment followed by a sort of the variable
+			ast.Inspect(file, func(n ast.Node) bool {
+				var list []ast.Stmt
+				switch x := n.(type) {
+				case *ast.BlockStmt:
+					list = x.List
+				case *ast.CaseClause:
+					list = x.Body
+				}
+				for k, st := range list {
+					as, ok := st.(*ast.AssignStmt)
+					if !ok || len(as.Lhs) != 1 || len(as.Rhs) != 1 {
+						continue
+					}
+					call, ok := as.Rhs[0].(*ast.CallExpr)
+					if !ok || calleeDecl(p, call) != fd {
+						continue
+					}
+					x := exprStr(p.Fset, as.Lhs[0])
+					if how, ok, found := firstUseIsSort(p, list[k+1:], x); found && ok {
+						nGood++
+						hows = append(hows, how)
+					}
+				}
+				return true
+			})
+		}
+	}
+	if nCalls == 0 || nGood != nCalls {
+		return "", false
+	}
+	return "returned by " + fd.Name.Name + ", whose " + fmt.Sprint(nCalls) + " caller(s) sort it first (" + strings.Join(dedup(hows), "; ") + ")", true
 }
